@@ -107,7 +107,14 @@ def run(ctx):
                     f"{rel}:{b2.lineno}")
         # the same world-frame joint data feeds auxiliary_functions
         calls = [n for n in ast.walk(ac) if isinstance(n, ast.Call) and dotted(n.func) == "auxiliary_functions"]
-        if len(calls) == 1 and [norm_src(a) for a in calls[0].args] == ["self", "B1_r_P1J0", "B2_r_P2J0", "A_K1J0", "A_K2J0"]:
+        argsrc = [norm_src(a) for a in calls[0].args] if len(calls) == 1 else []
+        if len(argsrc) == 2 and argsrc[1].startswith("*self."):
+            # frames persisted once: resolve the tuple store
+            attr = argsrc[1][len("*self."):]
+            tup = [st for st in ci.stores.get(attr, []) if st.method == "assembler_callback" and isinstance(st.value, ast.Tuple)]
+            if len(tup) == 1:
+                argsrc = ["self"] + [norm_src(e) for e in tup[0].value.elts]
+        if argsrc == ["self", "B1_r_P1J0", "B2_r_P2J0", "A_K1J0", "A_K2J0"]:
             rep.ok("C05.R3", C, norm_src(calls[0]))
         else:
             rep.bad("C05.R3", C, calls[0] if calls else ac.name, "auxiliary_functions must receive (self, B1_r_P1J0, B2_r_P2J0, A_K1J0, A_K2J0) in this order",
@@ -143,8 +150,8 @@ MUTANTS = [
          old="        # g_dot_q_num = approx_fprime(\n        #     q, lambda q: self.g_dot(t, q, u), method=\"cs\", eps=1e-12\n        # )\n        # diff = g_dot_q - g_dot_q_num\n        # error = np.linalg.norm(diff)\n        # print(f\"error g_dot_q: {error}\")\n        # return g_dot_q_num\n\n    def g_dot_u(self, t, q):\n        return self.W_g(t, q).T",
          new="        # g_dot_q_num = approx_fprime(\n        #     q, lambda q: self.g_dot(t, q, u), method=\"cs\", eps=1e-12\n        # )\n        # diff = g_dot_q - g_dot_q_num\n        # error = np.linalg.norm(diff)\n        # print(f\"error g_dot_q: {error}\")\n        # return g_dot_q_num\n\n    def g_dot_u(self, t, q):\n        return self.W_g(t, q)", expect="C05.R2"),
     dict(id="c05-m5", what="subsystem-2 joint frame derived from the body-1 orientation", file=PB,
-         old="            B2_r_P2J0 = A_IB20.T @ (self.r_OJ0 - r_OP20)\n            A_K2J0 = A_IB20.T @ self.A_IJ0\n        else:\n            B2_r_P2J0 = np.zeros(3)\n            A_K2J0 = None  # unused\n            assert self.nla_g_rot == 0  # Spherical case\n\n        auxiliary_functions(",
-         new="            B2_r_P2J0 = A_IB20.T @ (self.r_OJ0 - r_OP20)\n            A_K2J0 = A_IB10.T @ self.A_IJ0\n        else:\n            B2_r_P2J0 = np.zeros(3)\n            A_K2J0 = None  # unused\n            assert self.nla_g_rot == 0  # Spherical case\n\n        auxiliary_functions(", expect="C05.R3"),
+         old="            B2_r_P2J0 = A_IB20.T @ (self.r_OJ0 - r_OP20)\n            A_K2J0 = A_IB20.T @ self.A_IJ0\n        else:\n            B2_r_P2J0 = np.zeros(3)\n            A_K2J0 = None  # unused\n            assert self.nla_g_rot == 0  # Spherical case\n\n        # the body-fixed",
+         new="            B2_r_P2J0 = A_IB20.T @ (self.r_OJ0 - r_OP20)\n            A_K2J0 = A_IB10.T @ self.A_IJ0\n        else:\n            B2_r_P2J0 = np.zeros(3)\n            A_K2J0 = None  # unused\n            assert self.nla_g_rot == 0  # Spherical case\n\n        # the body-fixed", expect="C05.R3"),
     dict(id="c05-m6", what="glue passes B_r_CP as keyword that PointMass lacks? (renamed keyword offset=)", file=PB,
          old="    object.J_J1 = lambda t, q: object.subsystem1.J_P(t, q[:nq1], object.xi1, B1_r_P1B0)",
          new="    object.J_J1 = lambda t, q: object.subsystem1.J_P(t, q[:nq1], object.xi1, offset=B1_r_P1B0)", expect=["C05.R4", "C05.R3"]),
